@@ -62,7 +62,7 @@ def new_ctx():
 def simplify_with_axioms(x):
     """normal form of a rational expression modulo the root axioms (s^2 = radicand)"""
     num, den = sp.fraction(sp.together(x))
-    num = reduce_axioms(num); den = reduce_axioms(den)
+    num = _reduce_poly(num); den = _reduce_poly(den)
     if den == 1 or den.is_number:
         return sp.expand(num / den)
     return sp.cancel(num / den)
@@ -182,17 +182,30 @@ def _conj(x):
     return sp.conjugate(x)
 
 
-def reduce_axioms(e):
-    """rewrite powers of sqrt-symbols with s^2 = radicand (exact), after expansion"""
+def _reduce_poly(e):
     e = sp.expand(e)
     for s, rad in CTX[0].sqrt.items():
         if e.has(s):
-            p = sp.Poly(e, s)
+            try:
+                p = sp.Poly(e, s)
+            except sp.PolynomialError:
+                return e
             out = 0
             for (k,), c in p.terms():
                 out += c * rad ** (k // 2) * s ** (k % 2)
             e = sp.expand(out)
     return e
+
+
+def reduce_axioms(e):
+    """rewrite powers of sqrt-symbols with s^2 = radicand (exact); rational expressions are reduced in numerator and denominator"""
+    e = sp.expand(e) if not e.is_number else e
+    if not any(e.has(s) for s in CTX[0].sqrt):
+        return e
+    num, den = sp.fraction(sp.together(e))
+    if den == 1:
+        return _reduce_poly(num)
+    return _reduce_poly(num) / _reduce_poly(den)
 
 
 def is_zero(e):
@@ -203,7 +216,7 @@ def is_zero(e):
         return True
     e = sp.together(e)
     num, den = sp.fraction(e)
-    num = reduce_axioms(num)
+    num = _reduce_poly(num)
     if num == 0:
         return True
     # trig axioms: substitute s^2 -> 1 - c^2 pairwise
@@ -462,3 +475,150 @@ def to_obj(x):
     if a.dtype == object:
         return ALG.normalize(a, np.complex128)
     return ALG.normalize(a.astype(object), a.dtype.type)
+
+
+# ============================================================ QF_NRA back end for inequalities
+def _to_z3(e, env, side):
+    """sympy real expression -> z3 Real term. Algebraic constants (sqrt of rationals) become fresh reals with their defining
+    constraint appended to `side`."""
+    import z3
+    if e.is_Rational:
+        return z3.RealVal(f'{e.p}/{e.q}')
+    if e.is_Symbol:
+        if e not in env:
+            env[e] = z3.Real(e.name)
+        return env[e]
+    if e.is_Add:
+        return z3.Sum([_to_z3(a, env, side) for a in e.args])
+    if e.is_Mul:
+        return z3.Product([_to_z3(a, env, side) for a in e.args])
+    if e.is_Pow:
+        b, ex = e.args
+        if ex.is_Integer:
+            bz = _to_z3(b, env, side)
+            n = int(ex)
+            if n >= 0:
+                return bz ** n if n != 1 else bz
+            return 1 / (bz ** (-n) if n != -1 else bz)
+        if ex == sp.Rational(1, 2) or ex == sp.Rational(-1, 2):
+            # sqrt of a non-negative expression (constants or axiom-free radicands)
+            key = ('sqrt', b)
+            if key not in env:
+                v = z3.Real(f'_sqrt{len(env)}')
+                env[key] = v
+                bz = _to_z3(b, env, side)
+                side.append(v >= 0); side.append(v * v == bz)
+            v = env[key]
+            return v if ex > 0 else 1 / v
+    if e.is_Float:
+        ee = exact(float(e))
+        return _to_z3(ee, env, side)
+    if e.func is sp.Abs:
+        key = ('abs', e.args[0])
+        if key not in env:
+            v = z3.Real(f'_abs{len(env)}')
+            az = _to_z3(e.args[0], env, side)
+            env[key] = v
+            side.append(v >= 0); side.append(z3.Or(v == az, v == -az))
+        return env[key]
+    raise Unsupported(f'cannot translate {e.func.__name__} to QF_NRA')
+
+
+def nra_solve(hyps, goal, timeout_ms=60000):
+    """decide  (axioms of the context symbols) and hyps  =>  goal   over the reals.
+    hyps/goal: tuples (op, lhs, rhs) with op in {'<','<=','>','>=','==','!='} on real sympy expressions.
+    returns ('unsat'|'sat'|'unknown', assignment dict symbol->sympy Rational (for 'sat'), seconds)"""
+    import z3, time
+    env = {}; side = []
+    c = CTX[0]
+
+    def rel(r):
+        op, l, rr = r
+        l = sp.expand(l) if isinstance(l, sp.Basic) else exact(l)
+        rr = sp.expand(rr) if isinstance(rr, sp.Basic) else exact(rr)
+        a = _to_z3(sp.together(l - rr) if False else l, env, side); b = _to_z3(rr, env, side)
+        return {'<': a < b, '<=': a <= b, '>': a > b, '>=': a >= b, '==': a == b, '!=': a != b}[op]
+    cons = [rel(h) for h in hyps]
+    g = rel(goal)
+    for s, rad in c.sqrt.items():
+        sz = _to_z3(s, env, side)
+        cons.append(sz >= 0); cons.append(sz * sz == _to_z3(rad, env, side))
+    for cs, sn, a in c.trig:
+        cz = _to_z3(cs, env, side); sz = _to_z3(sn, env, side)
+        cons.append(cz * cz + sz * sz == 1)
+    for s, a in c.exp.items():
+        cons.append(_to_z3(s, env, side) > 0)
+    for s, (fname, arg, axioms) in c.other.items():
+        for ax in axioms:
+            cons.append(rel(ax))
+    sol = z3.Solver(); sol.set('timeout', timeout_ms)
+    sol.add(*cons, *side, z3.Not(g))
+    t0 = time.time(); r = sol.check(); dt = time.time() - t0
+    if r == z3.unsat:
+        return 'unsat', None, dt
+    if r == z3.sat:
+        m = sol.model()
+        asg = {}
+        for k, v in env.items():
+            if isinstance(k, sp.Symbol):
+                val = m.eval(v, model_completion=True)
+                try:
+                    asg[k] = sp.Rational(val.numerator_as_long(), val.denominator_as_long())
+                except Exception:
+                    asg[k] = sp.Float(float(val.approx(20).as_fraction())) if hasattr(val, 'approx') else sp.Integer(0)
+        return 'sat', asg, dt
+    return 'unknown', None, dt
+
+
+def _expit(x):
+    """scipy.special.expit of a symbolic argument: fresh symbol e with 0 < e < 1 (sound over the reals)"""
+    x = exact(x) if not isinstance(x, sp.Basic) else x
+    if not x.free_symbols:
+        return 1 / (1 + sp.exp(-x))
+    xe = sp.expand(x)
+    for s, (fname, arg, ax) in CTX[0].other.items():
+        if fname == 'expit' and sp.expand(arg - xe) == 0:
+            return s
+    s = CTX[0].fresh('expit_', real=True)
+    CTX[0].other[s] = ('expit', xe, [('>', s, 0), ('<', s, 1)])
+    return s
+
+
+def _softplus(x):
+    """softplus of a symbolic argument: fresh symbol p with p > 0 and p > x (sound over the reals)"""
+    x = exact(x) if not isinstance(x, sp.Basic) else x
+    if not x.free_symbols:
+        return sp.log(1 + sp.exp(x))
+    xe = sp.expand(x)
+    for s, (fname, arg, ax) in CTX[0].other.items():
+        if fname == 'softplus' and sp.expand(arg - xe) == 0:
+            return s
+    s = CTX[0].fresh('softplus_', positive=True)
+    CTX[0].other[s] = ('softplus', xe, [('>', s, 0), ('>', s, xe)])
+    return s
+
+
+def elementwise(fn, x):
+    if isinstance(x, SymArray):
+        r = np.frompyfunc(fn, 1, 1)(x.a)
+        return SymArray(_arr(r, x.a.shape), _real_dt(x._dt), ALG)
+    return fn(x)
+
+
+def linalg_inv_exact(x):
+    """exact symbolic inverse (sympy) of a small matrix / batch of matrices: np.linalg.inv contract model for d <= 3"""
+    a = x.a
+    if a.shape[-1] > 3:
+        raise Unsupported('np.linalg.inv of a symbolic matrix larger than 3x3 (external: LAPACK)')
+    flat = a.reshape(-1, a.shape[-2], a.shape[-1])
+    out = np.empty(flat.shape, dtype=object)
+    for b in range(flat.shape[0]):
+        M = sp.Matrix(flat[b].tolist())
+        Mi = M.adjugate() / M.det()
+        for i in range(M.rows):
+            for j in range(M.cols):
+                out[b, i, j] = sp.together(Mi[i, j])
+    return SymArray(out.reshape(a.shape), x._dt, ALG)
+
+
+AlgDomain.linalg_inv = lambda self, x: linalg_inv_exact(x)
